@@ -226,10 +226,114 @@ func generatorReach(w *World) []*ssa.Function {
 type switchTable struct {
 	fn    string
 	cases map[string]string // spelling -> returned constant ("" = not constant)
+	ssaFn *ssa.Function     // set for a table read off a function's evaluated behaviour (evaluatedNormalisers)
 }
 
-// normalisingSwitches: switch statements in internal/model whose cases are string constants and whose bodies return string constants.
+var normalisingTablesOf = map[*World][]switchTable{}
+
+// normalisingSwitches: the normalising tables of internal/model, whatever holds their rows: a switch whose cases are string
+// constants and whose bodies return string constants, a package-level map literal, or any other container (rows of {canonical,
+// spellings...}, an index derived from them at initialisation, a chain of helpers) consulted by a function from spelling to
+// spelling - the rows of the latter are obtained by evaluating the function over the grammar's spellings.
 func normalisingSwitches(w *World) []switchTable {
+	if t, done := normalisingTablesOf[w]; done {
+		return t
+	}
+	t := syntacticNormalisingTables(w)
+	t = append(t, evaluatedNormalisers(w, t)...)
+	normalisingTablesOf[w] = t
+	return t
+}
+
+// evaluatedNormalisers: the functions of internal/model that take one spelling and hand back a spelling (optionally with a "found"
+// flag) and that rewrite at least one spelling of the grammar into another spelling of the grammar. Their table is what they
+// compute: one row per alias spelling of the grammar and per other known spelling they rewrite. Functions that already own a switch
+// found syntactically are left to that reading.
+func evaluatedNormalisers(w *World, syntactic []switchTable) []switchTable {
+	grammarSp := map[string]bool{}
+	aliasSp := map[string]bool{}
+	for _, sp := range w.G4.Aliases() {
+		for _, s := range sp {
+			aliasSp[s], grammarSp[s] = true, true
+		}
+	}
+	for _, sp := range w.G4.ScalarTokens() {
+		for _, s := range sp {
+			grammarSp[s] = true
+		}
+	}
+	domain := map[string]bool{}
+	for s := range grammarSp {
+		domain[s] = true
+	}
+	owned := map[string]bool{}
+	for _, st := range syntactic {
+		owned[st.fn] = true
+		for s := range st.cases {
+			domain[s] = true
+		}
+	}
+	isString := func(t types.Type) bool {
+		b, ok := t.Underlying().(*types.Basic)
+		return ok && b.Info()&types.IsString != 0
+	}
+	ev := w.evaluator()
+	var out []switchTable
+	for _, fn := range w.srcFuncs {
+		if fn.Pkg != w.Model || fn.Blocks == nil || fn.Parent() != nil || fn.Synthetic != "" {
+			continue
+		}
+		nStr := 0
+		for _, p := range fn.Params {
+			if isString(p.Type()) {
+				nStr++
+			}
+		}
+		res := fn.Signature.Results()
+		if nStr != 1 || res.Len() < 1 || res.Len() > 2 || !isString(res.At(0).Type()) {
+			continue
+		}
+		if res.Len() == 2 && !types.Identical(res.At(1).Type().Underlying(), types.Typ[types.Bool]) {
+			continue
+		}
+		name := fn.Name()
+		if rc := recvNamedCore(fn); rc != "" {
+			name = rc + "." + name
+			if _, isPtr := fn.Params[0].Type().Underlying().(*types.Pointer); isPtr {
+				name = "*" + name
+			}
+		}
+		if owned[name] {
+			continue
+		}
+		st := switchTable{fn: name, cases: map[string]string{}, ssaFn: fn}
+		evaluable, rewrites := true, false
+		for _, s := range sortedBoolKeys(domain) {
+			got, has, ok := ev.evalStringFunc(fn, s)
+			if !ok {
+				evaluable = false
+				break
+			}
+			if !has {
+				continue
+			}
+			if aliasSp[s] || got != s {
+				st.cases[s] = got
+			}
+			if aliasSp[s] && got != s && grammarSp[got] {
+				rewrites = true
+			}
+		}
+		if evaluable && rewrites {
+			out = append(out, st)
+		}
+	}
+	return out
+}
+
+// syntacticNormalisingTables: switch statements in internal/model whose cases are string constants and whose bodies return string
+// constants, and package-level map literals from string constants to string constants.
+func syntacticNormalisingTables(w *World) []switchTable {
 	mp := w.ByPath[modPath+"/internal/model"]
 	var out []switchTable
 	for _, f := range mp.Syntax {
@@ -341,7 +445,7 @@ func runC08(w *World, r *Report) {
 	const ruleAlias = "C08/alias-normalisation"
 	sws := normalisingSwitches(w)
 	if len(sws) < 1 {
-		r.fail(ruleAlias, "normalising tables found", "internal/model/model.go", "no switch or map literal in internal/model maps the grammar's alias spellings to one canonical name")
+		r.fail(ruleAlias, "normalising tables found", "internal/model/model.go", "no switch, table or spelling-to-spelling function in internal/model maps the grammar's alias spellings to one canonical name")
 	}
 	aliases := w.G4.Aliases()
 	for _, st := range sws {
@@ -418,6 +522,13 @@ func runC08(w *World, r *Report) {
 				// table (a call of the function that holds it, or the table sits in this very function)
 				normFns := normaliserFuncs(w, sws)
 				own := normFns[fn]
+				// decided by what the method computes when it can be evaluated: the same name for every spelling of one type
+				if differ, evaluable := getTypeBySpelling(w, fn, tn, f); evaluable {
+					if differ != "" {
+						r.fail(ruleRaw, fnKey(fn)+" hands out the normalised spelling", w.instrPos(ins), fmt.Sprintf("%s.%s - the type as it was spelled - decides the result: %s. `uint16 n @lengthOf(x)` and `u16 n @lengthOf(x)` then name different types to every generator (the long spelling has no row in their type tables)", tn, f, differ))
+					}
+					return
+				}
 				if !own {
 					if v, isVal := ins.(ssa.Value); isVal {
 						if at := rawReachesResult(v, normFns, 0, map[ssa.Value]bool{}); at != nil {
@@ -767,7 +878,7 @@ func (w *World) memberOfFreshArgument(fn *ssa.Function, base ssa.Value) bool {
 		if e.Site == nil || e.Site.Common().IsInvoke() || idx >= len(e.Site.Common().Args) {
 			return false
 		}
-		if _, ok := stripIdentity(e.Site.Common().Args[idx]).(*ssa.Alloc); !ok {
+		if !freshlyBuiltRecord(e.Site.Common().Args[idx], 0) {
 			return false
 		}
 	}
@@ -799,17 +910,68 @@ func (w *World) memberOfFreshArgument(fn *ssa.Function, base ssa.Value) bool {
 	return okAll && stores > 0
 }
 
+// freshlyBuiltRecord: v is a record built where it is used (a literal of the function itself), or what a constructor returns that
+// does nothing with the record it builds but fill it in and return it (`func defaults() *T { return &T{...} }`), on every path.
+func freshlyBuiltRecord(v ssa.Value, depth int) bool {
+	v = stripIdentity(v)
+	switch x := v.(type) {
+	case *ssa.Alloc:
+		return true
+	case *ssa.Call:
+		h := x.Call.StaticCallee()
+		if h == nil || h.Blocks == nil || depth > 3 || h.Signature.Results().Len() != 1 {
+			return false
+		}
+		n := 0
+		for _, b := range h.Blocks {
+			ret, isRet := b.Instrs[len(b.Instrs)-1].(*ssa.Return)
+			if !isRet {
+				continue
+			}
+			n++
+			rv := stripIdentity(ret.Results[0])
+			if al, isAl := rv.(*ssa.Alloc); isAl {
+				// the constructor keeps no other reference to it: it only addresses members and returns it
+				if al.Referrers() == nil {
+					return false
+				}
+				for _, ref := range *al.Referrers() {
+					switch ref.(type) {
+					case *ssa.FieldAddr, *ssa.Return, *ssa.DebugRef:
+					default:
+						return false
+					}
+				}
+				continue
+			}
+			if _, isCall := rv.(*ssa.Call); !isCall || !freshlyBuiltRecord(rv, depth+1) {
+				return false
+			}
+		}
+		return n > 0
+	}
+	return false
+}
+
 // rawReachesResult: v flows to a return of its function through identities, phis and concatenations only - not through a call of
 // one of the named functions. Returns the offending return (nil if none).
 // normaliserFuncs: the functions of internal/model that hold a normalising table - the switch itself, or a lookup in the
 // package-level map that is the table.
 func normaliserFuncs(w *World, sws []switchTable) map[*ssa.Function]bool {
 	out := map[*ssa.Function]bool{}
+	for _, st := range sws {
+		if st.ssaFn != nil {
+			out[st.ssaFn] = true // what the function computes is a normalising table, wherever its rows are kept
+		}
+	}
 	for _, fn := range w.srcFuncs {
 		if fn.Pkg != w.Model || fn.Blocks == nil {
 			continue
 		}
 		for _, st := range sws {
+			if st.ssaFn != nil {
+				continue
+			}
 			name := st.fn
 			recv := ""
 			if i := strings.LastIndex(name, "."); i >= 0 {
@@ -831,6 +993,57 @@ func normaliserFuncs(w *World, sws []switchTable) map[*ssa.Function]bool {
 		}
 	}
 	return out
+}
+
+// getTypeBySpelling evaluates a method that has only its receiver and yields one string, with the receiver's member `field` set to
+// each spelling of each alias group of the grammar (every other member zero). differ describes the first group whose spellings
+// yield different results ("" when there is none); evaluable is false when the method's body cannot be evaluated.
+func getTypeBySpelling(w *World, fn *ssa.Function, tname, field string) (differ string, evaluable bool) {
+	if len(fn.Params) != 1 || fn.Signature.Results().Len() != 1 {
+		return "", false
+	}
+	rt := fn.Params[0].Type()
+	st, ok := derefPtr(rt).Underlying().(*types.Struct)
+	if !ok || modelTypeName(derefPtr(rt)) != tname {
+		return "", false
+	}
+	idx := -1
+	for i := 0; i < st.NumFields(); i++ {
+		if st.Field(i).Name() == field {
+			idx = i
+		}
+	}
+	if idx < 0 {
+		return "", false
+	}
+	ev := w.evaluator()
+	aliases := w.G4.Aliases()
+	for _, tok := range sortedKeys(aliases) {
+		results := map[string]bool{}
+		var desc []string
+		for _, s := range aliases[tok] {
+			recv, isStruct := ev.zero(derefPtr(rt)).(*cvStruct)
+			if !isStruct {
+				return "", false
+			}
+			recv.f[idx].v = s
+			var arg any = recv
+			if _, isPtr := rt.Underlying().(*types.Pointer); isPtr {
+				arg = &cvCell{recv}
+			}
+			res, ok, _ := ev.Eval(fn, []any{arg})
+			got, isStr := res.(string)
+			if !ok || !isStr {
+				return "", false
+			}
+			results[got] = true
+			desc = append(desc, fmt.Sprintf("%q -> %q", s, got))
+		}
+		if len(results) > 1 && differ == "" {
+			differ = strings.Join(desc, ", ")
+		}
+	}
+	return differ, true
 }
 
 func rawReachesResult(v ssa.Value, normFns map[*ssa.Function]bool, depth int, seen map[ssa.Value]bool) ssa.Instruction {
